@@ -310,6 +310,9 @@ where
     #[inline]
     pub fn from_mean_cv(mean: F, cv: F) -> Result<LogNormal<F>, Error> {
         if cv == F::zero() {
+            if !(mean >= F::zero()) {
+                return Err(Error::MeanTooSmall);
+            }
             let mu = mean.ln();
             let norm = Normal::new(mu, F::zero()).unwrap();
             return Ok(LogNormal { norm });
